@@ -94,13 +94,13 @@ def state_members(program):
             raise AnalysisError(f"anchor ioclient.State.{need} vanished")
     return out
 
-def eval_under_closed(e):
-    """three-valued truth of a condition under the assumption self._state == State.CLOSED"""
+def eval_under_closed(e, value='CLOSED'):
+    """three-valued truth of a condition under the assumption self._state == State.<value>"""
     if isinstance(e, ast.UnaryOp) and isinstance(e.op, ast.Not):
-        v = eval_under_closed(e.operand)
+        v = eval_under_closed(e.operand, value)
         return None if v is None else (not v)
     if isinstance(e, ast.BoolOp):
-        vals = [eval_under_closed(v) for v in e.values]
+        vals = [eval_under_closed(v, value) for v in e.values]
         if isinstance(e.op, ast.And):
             if any(v is False for v in vals):
                 return False
@@ -121,13 +121,13 @@ def eval_under_closed(e):
                 m = state_member(b)
                 if m is None:
                     return None
-                eq = (m == 'CLOSED')
+                eq = (m == value)
                 return eq if isinstance(op, (ast.Eq, ast.Is)) else (not eq)
             if isinstance(op, (ast.In, ast.NotIn)) and isinstance(b, (ast.Tuple, ast.List, ast.Set)):
                 ms = [state_member(x) for x in b.elts]
                 if None in ms:
                     return None
-                r = 'CLOSED' in ms
+                r = value in ms
                 return r if isinstance(op, ast.In) else (not r)
     return None
 
@@ -562,11 +562,27 @@ def eof_ok(g, nid, call):
         var = st.targets[0].id
     if var is None:
         return False, 'result of the read is not bound to a name that could be tested'
+    # names derived from the result by operations that map empty to empty (decode / strip / case changes)
+    derived = {var}
+    changed = True
+    while changed:
+        changed = False
+        for n in g.nodes:
+            if n.kind == 'stmt' and isinstance(n.ast, ast.Assign) and len(n.ast.targets) == 1 and isinstance(n.ast.targets[0], ast.Name) and n.ast.targets[0].id not in derived:
+                v = n.ast.value
+                okchain = False
+                while isinstance(v, ast.Call) and isinstance(v.func, ast.Attribute) and v.func.attr in ('decode', 'strip', 'rstrip', 'lstrip', 'lower', 'upper'):
+                    v = v.func.value
+                    okchain = True
+                if okchain and isinstance(v, ast.Name) and v.id in derived:
+                    derived.add(n.ast.targets[0].id); changed = True
     # every path from the read to the normal exit passes an emptiness test whose empty edge cannot reach the normal exit
     tests = []
     for n in g.nodes:
         if n.kind == 'test' and isinstance(n.ast, ast.If):
-            lab = emptiness_edge(n.ast.test, var)
+            lab = None
+            for dv in derived:
+                lab = lab or emptiness_edge(n.ast.test, dv)
             if lab:
                 tgt = [v for v, l in g.succ[n.id] if l == lab]
                 if tgt and g.exit.id not in g.reach(tgt[0], include_src=True) and g.raise_exit.id in g.reach(tgt[0], include_src=True):
@@ -608,26 +624,54 @@ def fault_path(chk, program, rule='FAULT-PATH'):
                 chk.violation(rule, f"{inst}::handler", file=IO, line=c.lineno, func=q, expected='enclosed by `except Exception`', found=[g.nodes[h].label for h in hs])
                 continue
             H = generic[0]
-            # inside the handler: the not-CLOSED edge
-            region = g.reach(H, include_src=True)
-            edges = [(p, l, v) for p in region for v, l in g.succ[p] if establishes_not_closed(g, p, l)]
-            if not edges:
-                chk.violation(rule, f"{inst}::closed-test", file=IO, line=g.nodes[H].line, func=q, expected='handler tests state != CLOSED', found='no test')
-                continue
-            p, l, start = edges[0]
-            U = [x for x, cc in nodes_calling(g, lambda c: is_self_call(c, '_update_state') and c.args and state_member(c.args[0]) == 'DISCONNECTED') if x in g.reach(start, include_src=True)]
-            Kc = [x for x, cc in nodes_calling(g, lambda c: call_name(c).endswith('create_task') and c.args and isinstance(c.args[0], ast.Call) and is_self_call(c.args[0], 'connect'))
-                  if x in g.reach(start, include_src=True)]
-            ok_u = bool(U) and g.exit.id not in g.reach(start, avoid=U, include_src=True) - set() if U else False
-            if U and start in U:
-                ok_u = True
-            chk.check(bool(ok_u), rule, f"{inst}::reports-DISCONNECTED", file=IO, line=g.nodes[H].line, func=q,
-                      expected='every not-CLOSED path through the handler calls _update_state(State.DISCONNECTED)', found='missing on some path' if not ok_u else 'ok')
-            ok_k = False
-            if U and Kc:
-                ok_k = all(g.exit.id not in g.reach(u, avoid=Kc) for u in U)
-            chk.check(ok_k, rule, f"{inst}::reconnects", file=IO, line=g.nodes[H].line, func=q,
-                      expected='after reporting DISCONNECTED every path creates the connect() task', found='missing on some path' if not ok_k else 'ok')
+            U = [x for x, cc in nodes_calling(g, lambda c: is_self_call(c, '_update_state') and c.args and state_member(c.args[0]) == 'DISCONNECTED')]
+            Kc = [x for x, cc in nodes_calling(g, lambda c: call_name(c).endswith('create_task') and c.args and isinstance(c.args[0], ast.Call) and is_self_call(c.args[0], 'connect'))]
+            # for each state other than CLOSED: follow only the edges that state takes at tests on the state; every path handler -> exit must report and reconnect
+            for sv in ('CONNECTED', 'DISCONNECTED'):
+                def reach_state(start, avoid):
+                    seen = set(); stack = [start]
+                    if start in avoid:
+                        return seen
+                    seen.add(start)
+                    while stack:
+                        u = stack.pop()
+                        n = g.nodes[u]
+                        tv = eval_under_closed(n.ast.test, sv) if n.kind == 'test' else None
+                        for v, l in g.succ[u]:
+                            if l == 'exc':
+                                continue
+                            if tv is True and l == 'false': continue
+                            if tv is False and l == 'true': continue
+                            if v in avoid or v in seen: continue
+                            seen.add(v); stack.append(v)
+                    return seen
+                miss_u = g.exit.id in reach_state(H, set(U))
+                miss_k = g.exit.id in reach_state(H, set(Kc))
+                order_ok = all(g.exit.id not in reach_state(u, set(Kc)) for u in U) if U else False
+                chk.check(not miss_u, rule, f"{inst}::reports-DISCONNECTED::state={sv}", file=IO, line=g.nodes[H].line, func=q,
+                          expected=f"with the client {sv}, every path through the fault handler calls _update_state(State.DISCONNECTED)", found='a path skips it' if miss_u else 'ok')
+                chk.check(not miss_k and order_ok, rule, f"{inst}::reconnects::state={sv}", file=IO, line=g.nodes[H].line, func=q,
+                          expected=f"with the client {sv} (anything but CLOSED), every path through the fault handler creates the connect() task, after reporting",
+                          found='a path ends without a reconnect' if miss_k else ('ok' if order_ok else 'reconnect not after the report'),
+                          detail='' if not miss_k else 'a fault that arrives while the state is already DISCONNECTED (set by the other fault path) would never be followed by a reconnect')
+            closed_quiet = True
+            # with the client CLOSED the handler must do neither
+            def reach_closed(start):
+                seen = {start}; stack = [start]
+                while stack:
+                    u = stack.pop()
+                    n = g.nodes[u]
+                    tv = eval_under_closed(n.ast.test, 'CLOSED') if n.kind == 'test' else None
+                    for v, l in g.succ[u]:
+                        if l == 'exc': continue
+                        if tv is True and l == 'false': continue
+                        if tv is False and l == 'true': continue
+                        if v not in seen:
+                            seen.add(v); stack.append(v)
+                return seen
+            rc = reach_closed(H)
+            chk.check(not (set(U) & rc) and not (set(Kc) & rc), rule, f"{inst}::quiet-when-CLOSED", file=IO, line=g.nodes[H].line, func=q,
+                      expected='with the client CLOSED the handler neither changes the state nor reconnects', found='reachable' if (set(U) | set(Kc)) & rc else 'ok')
 
 def _kw(call, name):
     for k in call.keywords:
@@ -931,6 +975,25 @@ def send_rules(chk, program):
     chk.check(len(enc) == 1, 'SEND-ENCODE-FIRST', 'send::one-encode', file=IO, line=fn.lineno, func=q, expected='one call of _encode_impl', found=len(enc))
     locks = instance_locks(program)
     aw = g.await_nodes()
+    def _lock_of(call):
+        t = call
+        while hasattr(t, '_parent') and t is not fn:
+            t = t._parent
+            if isinstance(t, ast.AsyncWith):
+                for i in t.items:
+                    e = i.context_expr
+                    if isinstance(e, ast.Attribute) and isinstance(e.value, ast.Name) and e.value.id == 'self' and e.attr in locks:
+                        return e.attr
+        return None
+    any_offender = any(a in g.reach(n1) and n2 in g.reach(a) for a in aw for n1, _ in writes for n2, _ in writes)
+    if any_offender:
+        for nid0, c0 in writes:
+            covered = _lock_of(c0) is not None
+            acq0 = [x for x, cc in nodes_calling(g, lambda c: isinstance(c.func, ast.Attribute) and c.func.attr == 'acquire' and is_self_attr(c.func.value, tuple(locks))) if g.dominates(x, nid0)]
+            chk.check(covered or bool(acq0), 'SEND-ATOMIC', f"send::every-write-under-the-lock::{stmt_key(c0)}", file=IO, line=c0.lineno, func=q,
+                      expected='once some send can suspend between its packets, every write to the link happens under the same lock',
+                      found='locked' if (covered or acq0) else 'written outside the lock',
+                      detail='' if (covered or acq0) else 'an unlocked single-packet send can land between the packets of a message whose sender is suspended in drain()')
     for nid, c in writes:
         # atomic section: an await on a cycle through the write, or between two different writes, breaks contiguity unless locked
         offenders = []
@@ -1526,3 +1589,86 @@ def _test_mentions_only_start_len(test, startvar, buf):
         if isinstance(n, ast.Attribute) and not _is_buf(n, buf):
             return False
     return True
+
+
+# ---------------------------------------------------------------------------
+# additional clauses found necessary by seeded changes
+# ---------------------------------------------------------------------------
+def buf_reset(chk, program, rule='BUF-RESET'):
+    """the buffering client starts every connection with an empty buffer: _connect_impl assigns a fresh empty bytearray on every normal path"""
+    q, buf = serial_impl(program)
+    cls = q.split('.')[0]
+    cq = program.resolve_method('ioclient', cls, '_connect_impl')
+    g = cfg_of(program, cq)
+    resets = [n.id for n in g.nodes if n.kind == 'stmt' and isinstance(n.ast, ast.Assign) and any(_is_buf(t, buf) for t in n.ast.targets) and isinstance(n.ast.value, ast.Call)
+              and isinstance(n.ast.value.func, ast.Name) and n.ast.value.func.id in ('bytearray', 'bytes') and not n.ast.value.args]
+    resets += [n.id for n in g.nodes if n.kind == 'stmt' and isinstance(n.ast, ast.Expr) and isinstance(n.ast.value, ast.Call) and isinstance(n.ast.value.func, ast.Attribute)
+               and n.ast.value.func.attr == 'clear' and _is_buf(n.ast.value.func.value, buf)]
+    ok = bool(resets) and g.exit.id not in g.reach(g.entry.id, avoid=resets, labels_excluded=('exc',))
+    chk.check(ok, rule, f"{cq}::fresh-buffer", file=IO, line=g.fn.lineno, func=cq, expected=f"self.{buf} = bytearray() (or .clear()) on every normal path of _connect_impl",
+              found='reset' if ok else 'the buffer survives a reconnect', detail='' if ok else 'a fragment left by the lost connection is glued in front of the first packet of the new one: that frame is lost or mis-decoded')
+
+def rx_raise(chk, program, rule='RX-RAISE'):
+    """a raise in a _receive_impl ends the connection: it may depend only on end of stream (emptiness of the raw read result) or on the
+    gateway's literal busy banner -- never on the content of a line / packet"""
+    for q, classes in sorted(impls(program, '_receive_impl').items()):
+        g = cfg_of(program, q)
+        reads = reader_reads(g)
+        readvars = set()
+        for nid, c, meth in reads:
+            st = g.nodes[nid].ast
+            if isinstance(st, ast.Assign) and len(st.targets) == 1 and isinstance(st.targets[0], ast.Name):
+                readvars.add(st.targets[0].id)
+        for n in g.nodes:
+            if n.kind == 'stmt' and isinstance(n.ast, ast.Raise):
+                # leaves the function?  (a raise inside the decode try that is caught locally does not)
+                if g.raise_exit.id not in [v for v, l in g.succ[n.id]]:
+                    continue
+                # controlling tests
+                ctl = []
+                seenp = set(); stackp = [n.id]
+                while stackp:
+                    u = stackp.pop()
+                    for p_, l in g.pred[u]:
+                        if p_ in seenp: continue
+                        seenp.add(p_)
+                        if g.nodes[p_].kind == 'test': ctl.append((p_, l))
+                        elif g.nodes[p_].kind in ('stmt', 'handler'): stackp.append(p_)
+                ok = bool(ctl)
+                for p_, l in ctl:
+                    t = g.nodes[p_].ast.test
+                    e_ok = any(emptiness_edge(t, v) == l for v in readvars)
+                    banner = isinstance(t, ast.Compare) and len(t.ops) == 1 and isinstance(t.ops[0], ast.Eq) and isinstance(t.left, ast.Name) and t.left.id in readvars \
+                        and isinstance(t.comparators[0], ast.Constant) and isinstance(t.comparators[0].value, (bytes, str)) and len(t.comparators[0].value) > 0 and l == 'true'
+                    if not (e_ok or banner):
+                        ok = False
+                chk.check(ok, rule, f"{q}::{stmt_key(n.ast)}", file=IO, line=n.line, func=q,
+                          expected='a connection-ending raise depends only on end of stream (empty raw read) or on the literal busy banner',
+                          found=[stmt_key(g.nodes[p_].ast.test) for p_, l in ctl] or 'unconditional',
+                          detail='' if ok else 'content that is merely undecodable (a blank line, a stray packet) would be handled as a lost connection: reconnect, later messages lost')
+
+def handler_cannot_raise(chk, program, rule='Q-FIFO'):
+    """the except clause around the receive callback must not be able to fail itself: only logging of plain names / attributes"""
+    q = f"{BASE}._process_queue"
+    g = cfg_of(program, q)
+    fn = g.fn
+    for tr in [n for n in ast.walk(fn) if isinstance(n, ast.Try)]:
+        body_calls = [c for b in tr.body for c in ast.walk(b) if isinstance(c, ast.Call)]
+        is_cb = any((isinstance(c.func, ast.Name) and 'callback' in c.func.id) or is_self_attr(c.func, ('receive_callback',)) for c in body_calls)
+        if not is_cb:
+            continue
+        for h in tr.handlers:
+            bad = []
+            for st in h.body:
+                if isinstance(st, (ast.Pass, ast.Continue)):
+                    continue
+                if isinstance(st, ast.Expr) and isinstance(st.value, ast.Call) and call_name(st.value).startswith('self.logger.'):
+                    for a in list(st.value.args) + [k.value for k in st.value.keywords]:
+                        for x in ast.walk(a):
+                            if isinstance(x, (ast.Call, ast.Subscript, ast.BinOp, ast.Await)):
+                                bad.append(ast.unparse(x)[:60])
+                    continue
+                bad.append(ast.unparse(st)[:60])
+            chk.check(not bad, rule, f"{q}::callback-handler-cannot-fail", file=IO, line=h.lineno, func=q,
+                      expected='handler only logs plain names / attributes / f-strings of them (nothing in it can raise)', found=bad or 'logging only',
+                      detail='' if not bad else 'an exception inside the handler (e.g. a method that exists only for some message kinds) ends the consumer task: later messages are queued and never delivered')
